@@ -89,6 +89,7 @@ type frame struct {
 	unrolled map[*ssa.BasicBlock]int
 	loopEntry map[*ssa.BasicBlock]map[string]string // heap snapshot at the first arrival at a loop head: entry(e) in invariants
 	loopEntryCells map[*ssa.BasicBlock]map[int]Val
+	idxNext map[string]string // index value term -> the constant naming its successor on this path (copy-on-write)
 }
 
 // State is one symbolic path.
@@ -118,6 +119,7 @@ type State struct {
 	shadow   map[string]shadowEnt // heap id | object | index  ->  structurally known value stored there (copy-on-write)
 	freshLocs map[string]bool     // locations allocated on this path (pairwise distinct objects); shared between clones, names are unique
 	shadowPrecise bool
+	elemNames map[string][2]string // element pointer term -> the constants naming its base and index on this path (copy-on-write)
 	bind     *heapBind // non-nil while an axiom / spec function body is evaluated: heaps are bound variables
 }
 
@@ -146,6 +148,7 @@ func (s *State) clone() *State {
 	n.promoted, n.encoded, n.closures, n.stale, n.epoch, n.chans, n.assumed = s.promoted, s.encoded, s.closures, s.stale, s.epoch, s.chans, s.assumed
 	n.shadow = s.shadow
 	n.freshLocs = s.freshLocs
+	n.elemNames = s.elemNames
 	return n
 }
 
